@@ -3,6 +3,10 @@
 import json
 props=[json.loads(l) for l in open('/verif/properties.jsonl')]
 claimed={
+ "C07": dict(level="model_checking",
+   text="Bounded symbolic execution of every UnmarshalJSON/MarshalJSON pair on documents in which one member at a time takes a value of every JSON kind (and duplicates / case-folded names), all other members having symbolic presence: panics and bound overruns are detected by the executor, and byte equality of the first and second encodings is a solver obligation per path. The items:[] instability was repaired in /repo (0d4b6a2); scalar items are a known finding.",
+   note="Trusted: SSA executor, z3, M-json. Bounds: one corrupted member at a time, depth 1.",
+   design="4 C07", technique="bounded symbolic execution of go/ssa with symbolic member presence and per-member kind variation + SMT (z3), counterexample replay"),
  "C06": dict(level="model_checking",
    text="Bounded symbolic execution of the encoders: (a) no duplicate member names / valid JSON for values decoded from symbolic documents (all keyword combinations per path) and for builder-API sequences with symbolic keys; (b) determinism and documented ordering of schema properties with every map iteration order a symbolic permutation explored independently for two encodings, x-order kinds and values symbolic; (c) escaping of $ref text with unconstrained bytes. The x-order tie nondeterminism found this way was repaired in /repo (fix: 398d85a), raw property names likewise (58ad248).",
    note="Trusted: SSA executor, z3, M-json, M-swag.ConcatJSON; encoding/json sorts map keys (model rule). Bounds: 2 properties, x-order in {0,1,2}, names of one symbolic byte, $ref <= 3/4 bytes.",
